@@ -114,8 +114,8 @@ class Run(object):
             lines.append("ANALYSIS-ERROR property=%s undecided rule=%s construct=%s"
                          " at %s :: %s" % (self.prop, r["rule"], r["construct"],
                                            r["loc"], r["detail"]))
-        if new_viol and code != 2:
-            code = 1
+        if new_viol:
+            code = 1      # a concrete violation outranks "could not decide the rest"
         if new_viol:
             os.makedirs(REPLAY_DIR, exist_ok=True)
             for i, r in enumerate(new_viol):
@@ -131,12 +131,8 @@ class Run(object):
                 if r.get("witness"):
                     for w in r["witness"]:
                         print("      path: %s" % w)
-                if code == 1:
-                    lines.append("VIOLATION property=%s replay=%s" %
-                                 (self.prop, path))
-                else:
-                    lines.append("(unreported while undecided) violation rule=%s "
-                                 "construct=%s" % (r["rule"], r["construct"]))
+                lines.append("VIOLATION property=%s replay=%s" %
+                             (self.prop, path))
         stale = [k for k in known
                  if (k["rule"], k["key"]) not in
                  {(r["rule"], r["construct"]) for r in viol}]
